@@ -694,6 +694,11 @@ func (v *Verifier) axiomsFor(r *Run, terms []*Term, extra []*Term) []*Term {
 				bs = append(bs, Bound(fmt.Sprintf("ax.p%d", i), s))
 			}
 			out = append(out, Forall(bs, Gt(App(n, SInt, bs...), IntLit(0))))
+			if strings.HasPrefix(n, "elemptr!") && len(bs) == 2 {
+				if _, ok := c.ufs["elemidx"]; ok {
+					out = append(out, Forall(bs, App("=", SBool, App("elemidx", SInt, App(n, SInt, bs...)), bs[1])))
+				}
+			}
 		}
 	}
 	if _, ok := c.ufs["strcat"]; ok {
